@@ -106,6 +106,101 @@ Lemma parse_str_u f r2 acc :
       end.
 Proof. reflexivity. Qed.
 
+Definition esc_step (f : nat) (e : N) (r2 acc : bytes) : option (bytes * bytes) :=
+    if e =? 34 then parse_str f r2 (34 :: acc)
+    else if e =? 92 then parse_str f r2 (92 :: acc)
+    else if e =? 47 then parse_str f r2 (47 :: acc)
+    else if e =? 98 then parse_str f r2 (8 :: acc)
+    else if e =? 102 then parse_str f r2 (12 :: acc)
+    else if e =? 110 then parse_str f r2 (10 :: acc)
+    else if e =? 114 then parse_str f r2 (13 :: acc)
+    else if e =? 116 then parse_str f r2 (9 :: acc)
+    else if e =? 117 then
+      match read_hex4 r2 with
+      | None => None
+      | Some (cp, r3) =>
+          if is_high_surrogate cp then
+            match (match eat 92 r3 with Some x => eat 117 x | None => None end) with
+            | Some r4 =>
+                match read_hex4 r4 with
+                | Some (lo, r5) =>
+                    if is_low_surrogate lo then
+                      parse_str f r5 (rev (utf8_encode (65536 + (cp - 55296) * 1024 + (lo - 56320))) ++ acc)
+                    else parse_str f r3 (rev replacement_char ++ acc)
+                | None => parse_str f r3 (rev replacement_char ++ acc)
+                end
+            | None => parse_str f r3 (rev replacement_char ++ acc)
+            end
+          else if is_low_surrogate cp then parse_str f r3 (rev replacement_char ++ acc)
+          else parse_str f r3 (rev (utf8_encode cp) ++ acc)
+      end
+    else None.
+
+Lemma parse_str_unfold f c r acc :
+  parse_str (S f) (c :: r) acc =
+    if c =? 34 then Some (rev acc, r)
+    else if c <? 32 then None
+    else if c =? 92 then match r with [] => None | e :: r2 => esc_step f e r2 acc end
+    else parse_str f r (c :: acc).
+Proof. rewrite rev_alt. reflexivity. Qed.
+
+(* the escape step, case by case, with the big case analysis kept inside [esc_step] (small proof
+   terms: Print Assumptions walks through them for every theorem that depends on the parser) *)
+Lemma parse_str_bs f e r2 acc : parse_str (S f) (92 :: e :: r2) acc = esc_step f e r2 acc.
+Proof. reflexivity. Qed.
+
+Lemma esc_step_two f e d r2 acc : two_char e = Some d -> esc_step f e r2 acc = parse_str f r2 (d :: acc).
+Proof.
+  unfold two_char, esc_step. intro H.
+  repeat match type of H with
+         | (if ?b then _ else _) = Some _ => destruct b; [inversion H; reflexivity|]
+         end.
+  discriminate.
+Qed.
+
+Lemma esc_step_plain f a b c d cp rest acc :
+  read_hex4 [a; b; c; d] = Some (cp, []) -> is_high_surrogate cp = false -> is_low_surrogate cp = false ->
+  esc_step f 117 (a :: b :: c :: d :: rest) acc = parse_str f rest (rev (utf8_encode cp) ++ acc).
+Proof.
+  intros Hh Hhi Hlo. unfold esc_step. change (117 =? 34) with false. change (117 =? 92) with false.
+  change (117 =? 47) with false. change (117 =? 98) with false. change (117 =? 102) with false.
+  change (117 =? 110) with false. change (117 =? 114) with false. change (117 =? 116) with false.
+  change (117 =? 117) with true. cbv iota.
+  rewrite (read_hex4_app _ _ _ _ _ _ Hh), Hhi, Hlo. reflexivity.
+Qed.
+
+Lemma esc_step_pair f a b c d a' b' c' d' hi lo rest acc :
+  read_hex4 [a; b; c; d] = Some (hi, []) -> read_hex4 [a'; b'; c'; d'] = Some (lo, []) ->
+  is_high_surrogate hi = true -> is_low_surrogate lo = true ->
+  esc_step f 117 (a :: b :: c :: d :: 92 :: 117 :: a' :: b' :: c' :: d' :: rest) acc =
+  parse_str f rest (rev (utf8_encode (65536 + (hi - 55296) * 1024 + (lo - 56320))) ++ acc).
+Proof.
+  intros Hh1 Hh2 Hhi Hlo. unfold esc_step. change (117 =? 34) with false. change (117 =? 92) with false.
+  change (117 =? 47) with false. change (117 =? 98) with false. change (117 =? 102) with false.
+  change (117 =? 110) with false. change (117 =? 114) with false. change (117 =? 116) with false.
+  change (117 =? 117) with true. cbv iota.
+  rewrite (read_hex4_app _ _ _ _ _ _ Hh1), Hhi. rewrite (eat_same 92), (eat_same 117).
+  rewrite (read_hex4_app _ _ _ _ _ _ Hh2), Hlo. reflexivity.
+Qed.
+
+Lemma len_step (t1 t : bytes) f : (length t1 + length t < S f)%nat -> t1 <> [] -> (length t < f)%nat.
+Proof. destruct t1 as [|x t1]; [contradiction|]. simpl. lia. Qed.
+
+(* one chunk = one step of the string parser *)
+Lemma chunk_step s1 t1 : StrChunk s1 t1 ->
+  forall f X acc, parse_str (S f) (t1 ++ X) acc = parse_str f X (rev s1 ++ acc).
+Proof.
+  intros Hc f X acc.
+  destruct Hc as [c H32 H34 H92 | e d Htwo | a b c d cp Hhex Hhi Hlo | a b c d a' b' c' d' hi lo Hh1 Hh2 Hhi Hlo].
+  - apply parse_str_raw; [apply eqb_false_of; exact H34 | apply N.ltb_ge; exact H32 | apply eqb_false_of; exact H92].
+  - exact (esc_step_two f e d X acc Htwo).
+  - exact (esc_step_plain f a b c d cp X acc Hhex Hhi Hlo).
+  - exact (esc_step_pair f a b c d a' b' c' d' hi lo X acc Hh1 Hh2 Hhi Hlo).
+Qed.
+
+Lemma chunk_nonempty s1 t1 : StrChunk s1 t1 -> t1 <> [].
+Proof. intros [ | | | ]; discriminate. Qed.
+
 Lemma parse_str_complete s body :
   StrBody s body -> forall fuel acc rest, (length body < fuel)%nat ->
   parse_str fuel (body ++ 34 :: rest) acc = Some (rev acc ++ s, rest).
@@ -113,25 +208,9 @@ Proof.
   induction 1 as [|s1 t1 s t Hc Hb IH]; intros fuel acc rest Hlen.
   - destruct fuel as [|f]; [simpl in Hlen; lia|]. simpl app. rewrite parse_str_end, app_nil_r. reflexivity.
   - destruct fuel as [|f]; [simpl in Hlen; lia|].
-    rewrite app_length in Hlen.
-    destruct Hc as [c H32 H34 H92 | e d Htwo | a b c d cp Hhex Hhi Hlo | a b c d a' b' c' d' hi lo Hh1 Hh2 Hhi Hlo].
-    + simpl app. rewrite parse_str_raw.
-      * rewrite IH by (simpl in Hlen; lia). simpl. rewrite <- app_assoc. reflexivity.
-      * apply eqb_false_of; exact H34.
-      * apply N.ltb_ge. exact H32.
-      * apply eqb_false_of; exact H92.
-    + simpl app. rewrite parse_str_esc. unfold two_char in Htwo.
-      assert (IH' : forall x, parse_str f (t ++ 34 :: rest) (x :: acc) = Some (rev acc ++ [x] ++ s, rest)).
-      { intro x. rewrite IH by (simpl in Hlen; lia). simpl. rewrite <- app_assoc. reflexivity. }
-      repeat match type of Htwo with
-             | (if ?b then _ else _) = Some _ => destruct b; [inversion Htwo; subst d; apply IH'|]
-             end.
-      discriminate.
-    + simpl app. rewrite parse_str_u. rewrite (read_hex4_app _ _ _ _ _ _ Hhex). rewrite Hhi, Hlo.
-      rewrite IH by (simpl in Hlen; lia). rewrite rev_app_distr, rev_involutive, <- app_assoc. reflexivity.
-    + simpl app. rewrite parse_str_u. rewrite (read_hex4_app _ _ _ _ _ _ Hh1). rewrite Hhi.
-      rewrite (eat_same 92). rewrite (eat_same 117). rewrite (read_hex4_app _ _ _ _ _ _ Hh2). rewrite Hlo.
-      rewrite IH by (simpl in Hlen; lia). rewrite rev_app_distr, rev_involutive, <- app_assoc. reflexivity.
+    rewrite app_length in Hlen. rewrite <- app_assoc. rewrite (chunk_step s1 t1 Hc).
+    rewrite IH by (apply (len_step _ _ _ Hlen); exact (chunk_nonempty s1 t1 Hc)).
+    rewrite rev_app_distr, rev_involutive, <- app_assoc. reflexivity.
 Qed.
 
 (* ---------- values: unfolding lemmas ---------- *)
